@@ -37,32 +37,10 @@ theorem C10_total (ctx : Ctx) (v : V) (ct : Ct) (hv : ValidCt ct) (hm : MachineC
   exact ⟨t, e, render_ok ctx v t hsh⟩
 
 example : ValidCt ⟨⟨0, 3⟩, ⟨0, 2 ^ 64 - 1⟩⟩ ∧ MachineCt ⟨⟨0, 3⟩, ⟨0, 2 ^ 64 - 1⟩⟩ ∧
-    treeSize (.flex .hor .spaceAround [.mk (some ⟨3, 4⟩) (.offset (-2)) true (.frame (.scrollbar .ver)),
+    treeSize (.flex .hor .spaceAround [.mk (some (.fin 3 4)) (.offset (-2)) true (.frame (.scrollbar .ver)), .mk (some .pinf) .start false (.fill true),
       .mk none .shrink false (.container ⟨0, 2 ^ 64 - 1⟩ .expand .end_ ⟨2 ^ 64 - 1, 0, 1, 0⟩ true (.text [.ch .tab, .glyph 1 (2 ^ 64 - 1) [.w 2]] true))]) < 2 ^ 62 := by
   refine ⟨⟨by decide, by decide⟩, ⟨by decide, by decide⟩, ?_⟩
   simp [treeSize, weight, weightCs, cellsWeight, TCell.weight]
-
-/-- **Flex factors from JSON.**  `Flex::from_json_value` keeps a factor exactly when it is finite and
-positive; every other number (zero, negative, non-finite) makes the child a non-flex child.  The totality
-theorem above holds for all factors anyway; positivity is what makes the rational model coincide with
-the `f64` computation on the grid used by the correspondence. -/
-theorem C10_json_factor (f : JFactor) (q : Q) :
-    f.filter = some q ↔ f = .finite false q ∧ 0 < q.num ∧ 0 < q.den := by
-  cases f with
-  | nonFinite => simp [JFactor.filter]
-  | finite neg q' =>
-    cases neg
-    · simp only [JFactor.filter, Q.pos]
-      by_cases hp : 0 < q'.num ∧ 0 < q'.den
-      · simp only [hp, and_self, decide_true, if_true, Option.some.injEq, JFactor.finite.injEq, true_and]
-        constructor
-        · intro h; subst h; exact ⟨rfl, hp⟩
-        · intro h; exact h.1
-      · simp only [hp, decide_false, Bool.false_eq_true, if_false, JFactor.finite.injEq, true_and]
-        constructor
-        · intro h; cases h
-        · intro h; obtain ⟨h1, h2⟩ := h; subst h1; exact absurd h2 hp
-    · simp [JFactor.filter]
 
 /-- the views whose reported size the property bounds: text (`Text`, `str`), flex, container, image,
 glyph, fill (`RGBA`, `()`), and the leaves that clamp a fixed size (surface view, ascii image, probe) -/
